@@ -775,3 +775,72 @@ Proof.
   destruct (reader_ns online isz 0 nc fts fs); try discriminate.
   destruct (reader_ns online isz 0 nc _ fs); discriminate.
 Qed.
+
+(* ------------------------------------------------------------------ *)
+(* Readers without a meta file                                         *)
+(* ------------------------------------------------------------------ *)
+
+(* offline, caller's ns: the array has exactly the caller's ns frames, and the open succeeds
+   exactly when those frames fit in the (non-empty) file; nothing is ever adjusted *)
+Lemma open_nometa_offline isz nbytes nc ns :
+  open_nometa false isz nbytes nc ns =
+    if memmap_ok isz nbytes ns nc then Opened ns nc None false else MmapError.
+Proof. reflexivity. Qed.
+
+Lemma open_nometa_offline_iff isz nbytes nc ns :
+  (exists n c f rw, open_nometa false isz nbytes nc ns = Opened n c f rw) <->
+  0 < nbytes /\ 0 <= ns * nc * isz <= nbytes.
+Proof.
+  rewrite open_nometa_offline. rewrite <- memmap_ok_spec.
+  destruct (memmap_ok isz nbytes ns nc); split.
+  - reflexivity.
+  - intros _. eauto.
+  - intros [n [c [f [rw H]]]]. discriminate.
+  - discriminate.
+Qed.
+
+(* OnlineReader without meta file: floor of the size, the caller's ns is ignored *)
+Lemma open_nometa_online isz nbytes nc ns :
+  isz_ok isz -> 1 <= nc -> isz * nc < 2 ^ 53 -> 1 <= nbytes < 2 ^ 53 ->
+  open_nometa true isz nbytes nc ns = Opened (nbytes / (isz * nc)) nc None false.
+Proof.
+  intros Hisz Hnc Hinc Hnb. unfold open_nometa.
+  rewrite (ns_online_floor isz nbytes nc Hisz ltac:(lia) Hnc Hinc).
+  assert (Hi1 : 1 <= isz) by (unfold isz_ok in Hisz; lia).
+  destruct (floor_frames isz nbytes nc Hnc Hi1 ltac:(lia)) as [[Hlo Hhi] Hk0].
+  replace (memmap_ok isz nbytes (nbytes / (isz * nc)) nc) with true; [reflexivity|].
+  symmetry. apply memmap_ok_spec. nia.
+Qed.
+
+(* no arguments at all, int16: the channel count is guessed from the size and the frames are all of them *)
+Lemma nometa_guess nbytes a :
+  1 <= nbytes < 2 ^ 53 -> guess_nc nbytes = Some a ->
+  (a = 384 \/ a = 385) /\ nbytes mod (2 * a) = 0 /\
+  construct_nometa nbytes None None None = NmOk a (nbytes / (2 * a)) 30000 /\
+  open_nometa false 2 nbytes a (nbytes / (2 * a)) = Opened (nbytes / (2 * a)) a None false.
+Proof.
+  intros Hnb Hg. unfold guess_nc in Hg.
+  assert (Ha : (a = 384 \/ a = 385) /\ nbytes mod (2 * a) = 0).
+  { destruct (nbytes mod (2 * 384) =? 0) eqn:E1.
+    - injection Hg as <-. apply Z.eqb_eq in E1. auto.
+    - destruct (nbytes mod (2 * 385) =? 0) eqn:E2; [|discriminate].
+      injection Hg as <-. apply Z.eqb_eq in E2. auto. }
+  destruct Ha as [Ha Hm]. split; [exact Ha|]. split; [exact Hm|].
+  assert (Hns : ns_online 2 nbytes a = NsOk (nbytes / (2 * a))).
+  { apply ns_online_floor; [right; left; reflexivity|lia|lia|lia]. }
+  split.
+  - unfold construct_nometa. unfold guess_nc.
+    destruct Ha as [-> | ->].
+    + replace (nbytes mod (2 * 384) =? 0) with true by (symmetry; apply Z.eqb_eq; exact Hm).
+      rewrite Hns. reflexivity.
+    + unfold guess_nc in Hg.
+      destruct (nbytes mod (2 * 384) =? 0) eqn:E1; [discriminate|].
+      replace (nbytes mod (2 * 385) =? 0) with true by (symmetry; apply Z.eqb_eq; exact Hm).
+      rewrite Hns. reflexivity.
+  - rewrite open_nometa_offline.
+    replace (memmap_ok 2 nbytes (nbytes / (2 * a)) a) with true; [reflexivity|].
+    symmetry. apply memmap_ok_spec.
+    assert (0 < 2 * a) by lia.
+    pose proof (Z.div_mod nbytes (2 * a) ltac:(lia)).
+    assert (0 <= nbytes / (2 * a)) by (apply Z.div_pos; lia). nia.
+Qed.
